@@ -21,7 +21,10 @@ TBS = [None, [0, 0, 8, 8], [-8, -8, 8, 8], [0, 0, 16, 4], [2, 2, 4, 4], [3, 0, 3
        [1, 1, 2, 3], [-4, 6, 4, 7]]
 PS = [1, 2, 5, 10, 15, 16, 31]
 IMAGES = [geom.IDENT, geom.Affine(0.25, -1.0, 0.5, 3.0, name="dyadic"), geom.Affine(1024.0, 2.0 ** 24, 1024.0, -(2.0 ** 24), name="big"),
-          geom.Affine(2.0, -9.0, 4.0, 5.0, name="neg"), geom.Affine(1.0, -40.0, 1.0, 2.0 ** 20, name="translate")]
+          geom.Affine(2.0, -9.0, 4.0, 5.0, name="neg"), geom.Affine(1.0, -40.0, 1.0, 2.0 ** 20, name="translate"),
+          # float32 coordinates that are exact, but whose SUM lo + hi is not representable in float32 (half-grid at 2^22): the bbox centre
+          # must be taken in double precision
+          geom.Affine(0.5, 2.0 ** 22, 0.5, 2.0 ** 22, name="half@2^22")]
 
 
 def catalogue(rng, kind, n):
@@ -84,7 +87,7 @@ def run(tier: str, seed: int) -> int:
     for kind in geom.KINDS:
         elems = catalogue(rng, kind, ncat)
         for ai, aff in enumerate(IMAGES):
-            st0 = ["float64", "float32", "float64", "int32", "int64"][ai]
+            st0 = ["float64", "float32", "float64", "int32", "int64", "float32"][ai]
             subtype = st0 if geom.representable(kind, elems, aff, st0) else "float64"
             if np.dtype(subtype).kind == "i" and (not aff.integral() or any(geom.has_special(e) for e in elems)):
                 subtype = "float64"
@@ -153,6 +156,42 @@ def run(tier: str, seed: int) -> int:
                         gs = sp.GeoSeries(arr, index=[f"r{i}" for i in range(n)]).hilbert_distance(total_bounds=container(ctb, 0), p=p)
                         if list(gs.index) != [f"r{i}" for i in range(n)] or [int(v) for v in gs.values] != [int(v) for v in d]:
                             chk.violation(f"geoseries|{kind}", "GeoSeries.hilbert_distance differs from the array's", "", ctx=dict(site="GeoSeries.hilbert_distance"))
+    # partitioned (Dask) frames: the distances Hilbert packing assigns are those of the unpartitioned array for the frame's own total
+    # bounds - also after the frame's partition bounds were cached and rows (the extreme ones) were filtered away
+    import dask
+    import dask.dataframe as dd
+    with dask.config.set(scheduler="synchronous"):
+        for kind in (geom.KINDS[:4] if tier == "quick" else geom.KINDS):
+            elems = [e for e in catalogue(rng, kind, 8) if not e["null"] and not geom.has_special(e)]
+            elems = [e for e in elems if any(len(r) for part in e["g"] for r in part)][:10]          # elements with at least one vertex
+            if len(elems) < 4:
+                continue
+            arr = geom.make_array(kind, elems)
+            df = sp.GeoDataFrame({"id": np.arange(len(arr)), "geometry": arr})
+            for npart, touched in ((2, False), (3, True)):
+                ddf = dd.from_pandas(df, npartitions=min(npart, len(df)))
+                if touched:
+                    ddf.partition_sindex  # noqa: B018
+                    _ = ddf.cx[0:1, 0:1]
+                b = np.asarray(arr.bounds, dtype="float64")
+                tbv = arr.total_bounds
+                extreme = [i for i in range(len(arr)) if any(b[i][c] == tbv[c] for c in range(4))]
+                keep = [i for i in range(len(arr)) if i not in extreme[: max(1, len(extreme) // 2)]]
+                f = ddf[ddf["id"].isin(keep)]
+                sub = df[df["id"].isin(keep)]
+                for pp in (4, 16):
+                    try:
+                        packed = f.pack_partitions(npartitions=1, p=pp).compute()
+                    except Exception:  # noqa: BLE001
+                        continue
+                    want = dict(zip(sub["id"], sub.geometry.array.hilbert_distance(total_bounds=sub.geometry.array.total_bounds, p=pp)))
+                    chk.count(len(packed))
+                    bad = [(int(i), int(k), int(want[i])) for k, i in zip(packed.index, packed["id"]) if int(k) != int(want[i])]
+                    if bad or len(packed) != len(sub):
+                        chk.violation(f"partitioned|{kind}|{touched}", f"{kind}: Hilbert distances of a Dask frame ({npart} partitions, partition bounds cached before the row "
+                                      f"filter: {touched}) differ from the unpartitioned array's for the frame's own total bounds, p={pp}: (id, got, want) {bad[:6]}", "",
+                                      ctx=dict(site="hilbert_distance", mode="partitioned", kind=kind))
+                        break
     for rec in recs:
         if not (0 <= rec["raw"] < 4 ** rec["p"]):
             chk.violation(f"range|{rec['kind']}", f"hilbert_distance value {rec['raw']} outside [0, 4^{rec['p']})", "", ctx=dict(site="hilbert_distance", mode="range"))
